@@ -8,6 +8,14 @@ behaves identically" then follows from field-wise cloning of owned data -- an as
 
 C18 (hasher independence): no function of the crate calls into the hasher itself (BuildHasher / Hasher methods,
 `.hasher()`, `hash_one`, `.hash(`): all hashing is IndexMap's.
+
+C10 (user code inside a map mutation): IndexMap's methods are under *assumed* contracts that describe normal returns
+only; what a map looks like when user code unwinds out of the middle of one of its mutations is not specified by
+indexmap and is not something a contract of this crate can constrain (a panic inside `retain2` leaves the entries
+shifted and the hash table stale).  Obligation per function: no user-supplied callable or iterator (a parameter whose
+type is a type parameter of the function itself: F, T, ...; or a local / closure built from one) is handed to a method of
+the IndexMap.  User code then only runs at call sites that are in the extracted text, where the crash-point assertions
+(`wf` holds when the call starts) are discharged by Verus.
 """
 import os, re, sys
 VERIF = os.path.dirname(os.path.dirname(os.path.abspath(__file__)))
@@ -37,6 +45,32 @@ def obligations(pid):
             body = re.sub(r"//[^\n]*", "", body)
             hit = HASHER_USE.search(body)
             out.append({"id": fn.key + "#no_hasher_call", "ok": hit is None, "what": "no call into the hasher" + (" (found `%s`)" % hit.group(0) if hit else "")})
+    if pid == "C10":
+        for fn in fns:
+            gtext = fn.src.t(fn.node["generics"]) if fn.node.get("generics") else ""
+            own = set(re.findall(r"\b([A-Z]\w*)\b\s*(?=[:,>])", gtext)) - {"I", "P", "H"}
+            tainted = set(i["name"] for i in fn.node["inputs"] if not i.get("receiver") and i.get("name")
+                          and (gen.compact(i["ty_text"]) in own or gen.compact(i["ty_text"]).startswith("impl")))
+            hit = None
+            if tainted:
+                body = re.sub(r"//[^\n]*", "", fn.src.t(fn.node["body"]))
+                for _ in range(3):  # locals built from user code are user code
+                    for mm in re.finditer(r"\blet\s+(?:mut\s+)?(\w+)\s*(?::[^=;]+)?=\s*([^;]+);", body):
+                        if any(re.search(r"\b%s\b" % re.escape(t), mm.group(2)) for t in tainted):
+                            tainted.add(mm.group(1))
+                for n in gen.walk_tree(fn.node["tree"]):
+                    if n["k"] != "MethodCall":
+                        continue
+                    recv = gen.compact(fn.src.t(n["receiver"]))
+                    if not re.search(r"(^|\.)map$", recv):
+                        continue
+                    for a in n["args"]:
+                        at = fn.src.t(a)
+                        bad = [t for t in tainted if re.search(r"\b%s\b" % re.escape(t), at)]
+                        if bad:
+                            hit = "`%s.%s(%s)` runs the caller's `%s` inside a mutation of the IndexMap" % (recv, n["method"], gen.compact(at)[:60], bad[0])
+            out.append({"id": fn.key + "#no_user_code_inside_map_call", "ok": hit is None,
+                        "what": "no user-supplied callable / iterator is handed to an IndexMap method" + (": " + hit if hit else "")})
     return out
 
 
